@@ -418,7 +418,7 @@ fn char_boundary_cut(s: &str, sel: u16) -> usize {
 }
 
 pub fn mutated_sentence() -> BoxedStrategy<String> {
-    (harvested_sentence(), 0u8..8, any::<u16>(), any::<u16>(), word_like(), harvested_sentence())
+    (harvested_sentence(), 0u8..10, any::<u16>(), any::<u16>(), word_like(), harvested_sentence())
         .prop_map(|(s, op, a, b, w, other)| {
             let words: Vec<&str> = s.split(' ').collect();
             let n = words.len();
@@ -474,6 +474,18 @@ pub fn mutated_sentence() -> BoxedStrategy<String> {
                     let cut1 = char_boundary_cut(&s, a);
                     let cut2 = char_boundary_cut(&other, b);
                     format!("{}{}", &s[..cut1], &other[cut2..])
+                }
+                8 | 9 => {
+                    // perturb the whitespace between two words (line wraps, tabs, double spaces)
+                    let ws = [" \n", "\n", "  ", "\t", " \n ", "\n ", " \t ", "\r\n", "\u{a0}", " \n\n"][b as usize % 10];
+                    let mut out = String::new();
+                    for (i, w) in words.iter().enumerate() {
+                        if i > 0 {
+                            out.push_str(if i == ia.max(1) || (op == 9 && i % 2 == 0) { ws } else { " " });
+                        }
+                        out.push_str(w);
+                    }
+                    out
                 }
                 _ => {
                     // suffix only
